@@ -242,6 +242,8 @@ def run(ck, facts, tier):
     nd, tb = list(ck.not_decided), list(ck.trusted)
     c10.run(ck, facts, tier, only={"R10.3", "R10.4", "R10.5", "R10.6"})
     ck.not_decided[:], ck.trusted[:] = nd, tb
+    from rules import pywrap
+    pywrap.run_fx_wrappers(ck, facts)          # what a Python user calls is the wrapper: it must hand its arguments to the core method unchanged
     ck.not_decided += ["that every valid tree of quotes is accepted (the node-selection heuristic with the visited set — liveness/termination of the recursive fill-in)",
                        "order/base independence as executed (it follows from uniqueness of tree paths given R09.2/R09.5 when the fill-in succeeds)",
                        "floating-point rounding of rate * inverse", "a loop body is evaluated once symbolically (generic iteration); loop-carried numeric effects are not modelled"]
